@@ -61,6 +61,10 @@ class Boom(Exception):
     pass
 
 
+def _noop():
+    pass
+
+
 class BodyError(Exception):
     pass
 
@@ -147,6 +151,7 @@ def build_plan(choice: Choice, tier: str, family: str):
         # 'exact': the caller takes exactly len(data) results (zip / islice style), never asks for StopIteration and
         # drops the generator afterwards
         call["consume"] = "exact" if d(6, "consume") == 5 else "full"
+        call["item_type"] = "list" if d(5, "item.type") == 4 else "tuple"
         # with 'exact': the generator may stay alive and be closed only while the NEXT call is running
         # (closing the generator only while the NEXT call is running was tried and dropped: an unclosed generator means
         # that the call is still in progress - its feeding and replace threads are alive - so the next call overlaps it,
@@ -166,6 +171,8 @@ def build_plan(choice: Choice, tier: str, family: str):
         calls.append(call)
     p["calls"] = calls
     p["functor_pause"] = d(3, "functor.pause")      # 0 none, 1 yield, 2 defer on some items
+    # a functor that uses a short-lived child process of its own for some items (a helper process, a nested map)
+    p["functor_child"] = d(12, "functor.child") == 11
     p["consumer_pause"] = d(3, "consumer.pause")    # 0 none, 1 yield between next(), 2 defer sometimes
     p["pipe_delay"] = d(2, "pipe.delay") == 1
     g = d(10 if thorough else 20, "granularity")
@@ -264,6 +271,13 @@ def scenario(k: Kernel, plan, obs):
             elif fpause == 2 and (x[1] % 3 == 0):
                 k.defer("functor.defer")
                 k.fault("slow-functor")
+            x = tuple(x)
+            if plan.get("functor_child") and x[1] % 4 == 0:
+                k.fault("functor-starts-a-child-process")
+                helper = ctx.Process(target=_noop)
+                helper.sim_role = "helper"
+                helper.start()
+                helper.join()
             if raises is not None and tuple(x) == raises:
                 k.fault("functor-raises")
                 rec("item!", x)
@@ -323,7 +337,7 @@ def scenario(k: Kernel, plan, obs):
                 else:
                     k.switch("input.pause")
                     k.fault("input-yield")
-            yield (c, i)
+            yield ([c, i] if call.get("item_type") == "list" else (c, i))
         if call["pause_stop"] == 1:
             k.fault("input-yield-before-exhaustion")
             k.switch("input.pause.stop")
@@ -434,6 +448,8 @@ class IntOnlySequence(_abc.Sequence):
 
 def typed_input(c, call):
     items = [(c, i) for i in range(call["n"])]
+    if call.get("item_type") == "list":
+        items = [[c, i] for i in range(call["n"])]     # an input element may itself be a list
     t = call.get("input_type", "list")
     if t == "tuple":
         return tuple(items)
@@ -608,7 +624,7 @@ def check_lifecycle(plan, obs, k, complete):
     if complete:
         # every process task ever started must have a log and have finished
         for t in k.tasks:
-            if t.kind == "process":
+            if t.kind == "process" and t.role == "worker":
                 if t.name not in per or not "".join(per[t.name]).endswith("end"):
                     if t.done and t.name not in per:
                         out.append({"class": "lifecycle", "site": "no-begin",
